@@ -26,6 +26,10 @@ import (
 
 // c18Dump renders module state that is reachable through queries but lives in indexes outside the
 // genesis state (so a re-export cannot show a difference).
+// c18ExtraDumps: further per-module query dumps (same contract as c18Dump: canonical text, sorted,
+// no addresses of Go objects), registered from other files' init().
+var c18ExtraDumps []func(f *Fix, ctx sdk.Context, out map[string]string)
+
 func c18Dump(f *Fix) map[string]string {
 	out := map[string]string{}
 	ctx, _ := f.Ctx.CacheContext() // queries may write caches; never into the chain
@@ -108,6 +112,9 @@ func c18Dump(f *Fix) map[string]string {
 			out["sponsorship.distribution"] = d.String()
 		}
 	}()
+	for _, fn := range c18ExtraDumps {
+		fn(f, ctx, out)
+	}
 	// iro: the plan id counter
 	func() {
 		defer func() { _ = recover() }()
